@@ -78,7 +78,8 @@ def oracle_constructor(rng, out):
     given = seq if rng.random() < 0.7 else seq.lower()
     try:
         cons = [hard.build_constraint(d) for d in descs]
-        np.random.seed(rng.randint(0, 10 ** 6))
+        seed_used = rng.randint(0, 10 ** 6)
+        np.random.seed(seed_used)
         p = dc.DnaOptimizationProblem(given, constraints=cons, logger=None)
     except Exception:
         return 0
@@ -109,6 +110,38 @@ def oracle_constructor(rng, out):
     if compatible and final != up:
         out.append(dict(kind="constructor-changed-compatible-input", input=dict(sequence=given, constraints=descs),
                         detail="%s -> %s although every hard constraint passes on the input" % (up, final)))
+    # "replaces only the incompatible segments", read independently of the space the code built: for every group of
+    # overlapping restrictions, the exact set of allowed words is enumerated; if the input already agrees with an
+    # allowed word on the whole span over which allowed words differ, that span must come back unchanged
+    try:
+        import itertools
+        restrs = sorted((a, b, set(vs)) for a, b, vs in hard.restrictions_of(stub))
+        comps = []
+        for a, b, vs in restrs:
+            if comps and a < comps[-1][1]:
+                comps[-1][1] = max(comps[-1][1], b)
+                comps[-1][2].append((a, b, vs))
+            else:
+                comps.append([a, b, [(a, b, vs)]])
+        for lo, hi, rs in comps:
+            if hi - lo > 7 or len(rs) < 2:
+                continue
+            allowed = ["".join(w) for w in itertools.product("ATGC", repeat=hi - lo)
+                       if all("".join(w[a - lo:b - lo]) in vs for a, b, vs in rs)]
+            if not allowed:
+                continue
+            varying = [j for j in range(hi - lo) if len({w[j] for w in allowed}) > 1]
+            if not varying:
+                continue
+            c0, c1 = lo + min(varying), lo + max(varying) + 1
+            cores = {w[c0 - lo:c1 - lo] for w in allowed}
+            if up[c0:c1] in cores and final[c0:c1] != up[c0:c1]:
+                out.append(dict(kind="constructor-replaced-compatible-segment", input=dict(sequence=given, constraints=descs, np_seed=seed_used),
+                                detail="%s -> %s: positions %d-%d (%s) were compatible with the overlapping restrictions %s" % (
+                                    up, final, c0, c1, up[c0:c1], [(a, b) for a, b, _ in rs])))
+                break
+    except Exception:
+        pass
     # idempotence of constrain_sequence and no draw the second time
     state = np.random.get_state()
     again = p.mutation_space.constrain_sequence(final)
